@@ -210,6 +210,18 @@ package core
 //@   ensures [C18] old(has(core.bannedDirectives, 23)) ==> ret != nil && ret.file == keyword.file && ret.index == keyword.begin && unchanged() && ioCount == old(ioCount)
 //@   ensures [C02] ret == nil ==> core.currentDirective == nil
 
+// C07 "a macro that is never pasted contributes nothing" (first half): after collectMacro no top-level directive is a MACRO -
+// every one of them has been moved into the macro table (or the document was rejected) - so the catalog build never sees one.
+//@ func (*JApiCore).collectMacro
+//@   tag C07 C01
+//@   requires core != nil && MacroWF(core) && (forall k :: 0 <= k && k < len(core.directives) ==> DirWF(core.directives[k]))
+//@   ensures [C07] ret == nil ==> (forall k :: 0 <= k && k < len(core.directives) ==> core.directives[k].type_ != 21)
+//@   ensures [C07] ret == nil ==> len(core.directives) <= old(len(core.directives))
+//@   loop 1 invariant 0 <= i && i <= len(core.directives) && len(core.directives) <= old(len(core.directives)) && MacroWF(core)
+//@   loop 1 invariant forall k :: 0 <= k && k < len(core.directives) ==> DirWF(core.directives[k])
+//@   loop 1 invariant forall k :: 0 <= k && k < i ==> core.directives[k].type_ != 21
+//@   loop 1 decreases len(core.directives) - i
+
 //@ func (*JApiCore).addMacro
 //@   tag C18 C07 C11 C01 C02
 //@   requires core != nil && DirWF(d) && MacroWF(core)
